@@ -12,6 +12,7 @@ CONSTANTS
   MaxCancel = 0
   MaxSpur = 3
   Endings = {"ctxdrop"}
+  SeiSet = {"never"}
   Dev = {}
 VIEW view
 CONSTRAINT Proviso
